@@ -74,6 +74,8 @@ EXPR_PAIRS = [
     ('(net := abs(amount)) > 100', 'net > 100'), ('(label := "zz") == "zz"', 'label == "x"'), ('(threshold := 0) == 0', 'amount > threshold'),
     ('[(last := r.amount) for r in orders]', 'last'), ('(amount := 5) == 5', 'amount'), ('(orders := 1) == 1', 'len(orders)'),
     ('date >= "2024-01-01"', 'date == "2024-03-05"'),
+    # an expression that cannot be evaluated (bad regular expression) cannot be evaluated the second time either
+    ('not regex("SAMS(CLUB")', 'regex("SAMS(CLUB") or contains("e")'), ('extract("A(B") == ""', 'not regex("[a-")'), ('regex("SAMS(CLUB")', 'not regex("SAMS(CLUB")'),
 ]
 VARS_RULES = '''is_wire = field.type == "WIRE"
 has_ref = contains(field.memo, "REF")
